@@ -144,6 +144,22 @@ func runC19(c *mon.Ctx) {
 }
 
 func c19serialisers(c *mon.Ctx, g *engine, rng *rand.Rand, n, pattern, w int) {
+	// history: now and then the helpers are first called with a list that contains an un-normalisable (all-zero)
+	// element - whatever they return for it, later calls on valid lists must not be affected
+	if n > 0 && rng.Intn(4) == 0 {
+		pl, _, _ := c19list(g, rng, n, pattern)
+		var bad banderwagon.Element
+		pl[rng.Intn(n)] = &bad
+		mon.Try(func() { banderwagon.ElementsToBytes(pl...) })
+		mon.Try(func() { banderwagon.BatchToBytesUncompressed(pl...) })
+		pr := make([]*fr.Element, n)
+		prs := make([]fr.Element, n)
+		for i := range pr {
+			pr[i] = &prs[i]
+		}
+		mon.Try(func() { banderwagon.BatchMapToScalarField(pr, pl) })
+		c.Count("poisoned_calls_before_valid_ones", 1)
+	}
 	elems, shad, hasID := c19list(g, rng, n, pattern)
 	snap := make([]banderwagon.Element, n)
 	for i := range elems {
